@@ -19,7 +19,7 @@ import (
 
 const (
 	tmoLong   = 1500 * time.Millisecond // ConnectTimeout / ResubscribeTimeout: acks are prompt (<< this) or never
-	waitBound = 8 * time.Second         // liveness watchdog of a scenario step
+	waitBound = 15 * time.Second        // liveness watchdog of a scenario step
 )
 
 type body struct {
